@@ -2373,6 +2373,15 @@ where
         let _ = tds.remove_vertex(&inserted);
     }
 
+    // Every new cell contains the inserted vertex; record one as its incident cell. Without it
+    // the vertex looks isolated and the next `insert` is refused ("Isolated vertex detected").
+    if let Ok(info) = &result
+        && let Some(&incident_cell) = info.new_cells.first()
+        && let Some(inserted) = tds.get_vertex_by_key_mut(vertex_key)
+    {
+        inserted.incident_cell = Some(incident_cell);
+    }
+
     result
 }
 
